@@ -41,6 +41,11 @@ type Cell struct {
 	// Again: the command is sent twice; after the first (judged) round the relationship L->T is taken away
 	// (delete | revoked | expired | inactive applied to the victim mappings); the second round is the one reported.
 	Again string `json:"again_after,omitempty"`
+	// DomState: inactive = T's http domain mapping is paused (status inactive, not expired).
+	DomState string `json:"domain_state,omitempty"`
+	// Rehandshake: the requester's connection first proved to be ANOTHER client (T; L when the requester is T),
+	// sent an executor command under that identity and then handshook again as the requester.
+	Rehandshake bool `json:"rehandshake,omitempty"`
 	// Index: stale-id-reused = the per-client index of L and T holds the id of a deleted mapping of theirs that
 	// now names a mapping between two other clients (S -> an unknown client); Target reused-id names that id.
 	Index string `json:"index_state,omitempty"`
@@ -349,6 +354,26 @@ func (w *world) step(c *Cell) (res stepResult) {
 		}
 		return r2
 	}
+	if c.DomState == "inactive" {
+		if err := w.pauseDomain(); err != nil {
+			res.f = &fail{"C11/harness/setup-failed", err.Error()}
+			return
+		}
+	}
+	if c.Rehandshake && rid != 0 {
+		prev := "T"
+		if c.Identity == "T" {
+			prev = "L"
+		}
+		if err := w.rehandshake(c.Identity, prev); err != nil {
+			res.f = &fail{"C11/harness/setup-failed", err.Error()}
+			return
+		}
+		if rq, err = w.requester(c.Identity); err != nil {
+			res.f = &fail{"C11/harness/setup-failed", err.Error()}
+			return
+		}
+	}
 	if c.Index == "stale-id-reused" {
 		if err := w.makeStaleIndex(); err != nil {
 			res.f = &fail{"C11/harness/setup-failed", err.Error()}
@@ -462,6 +487,10 @@ func (w *world) step(c *Cell) (res stepResult) {
 			res.f.key += "/same-command-id-and-body-sent-just-before-by-entitled-client"
 		case c.CodeState != "" && codeOp:
 			res.f.key += "/code-already-activated-by-another-client"
+		case c.Rehandshake && !sp.Special:
+			res.f.key += "/connection-had-another-proven-identity-before-its-last-handshake"
+		case c.DomState != "" && (sp.Type == packet.HTTPDomainCreate || sp.Type == packet.HTTPDomainDelete):
+			res.f.key += "/victim-domain-mapping-paused"
 		case c.Index != "" && (sp.Object == "mapping" || sp.Object == "traffic"):
 			res.f.key += "/per-client-index-holds-id-of-a-mapping-of-other-clients"
 		case strings.HasPrefix(c.Target, "zero-") && m.mappingID != "":
